@@ -1,0 +1,21 @@
+//go:build verif
+
+// Contracts for gzv (contract-based deductive verification, /verif). Comment-only file.
+package stringx
+
+// C19: lock ids come from stringx.Randn. The shared random source is read-modify-write, so every use of it happens under
+// the EXCLUSIVE lock (two concurrent callers under a shared lock would draw the same numbers - identical lock ids)
+//@ lockinv (ls *lockedSource) lock
+//@ guarded_by source
+//@ func (ls *lockedSource) Int63
+//@   property C19
+//@   requires ls != nil && ls.source != nil
+//@   call Int63#0: assert heldw(ls.lock)
+//@ func (ls *lockedSource) Seed
+//@   property C19
+//@   requires ls != nil && ls.source != nil
+//@   call Seed#0: assert heldw(ls.lock)
+//@ func newLockedSource
+//@   property C19
+//@   ensures fresh(result)
+//@   allocates
